@@ -14,9 +14,16 @@ var verifTimerSalt uint32
 //go:linkname verifTimerSeq runtime.verifTimerSeq
 var verifTimerSeq uint32
 
+// verifSelSeq: the same for the order in which a select inside the bubble polls its cases (rewrite
+// R0d of runtime/select.go); salt 0 = source order.
+//
+//go:linkname verifSelSeq runtime.verifSelSeq
+var verifSelSeq uint32
+
 // seedTimerOrder is called once per run, inside the bubble, before anything else arms a timer.
 func seedTimerOrder(s *Tape) uint32 {
 	verifTimerSeq = 0
+	verifSelSeq = 0
 	verifTimerSalt = 0
 	if s != nil && s.Chance(1, 2) {
 		verifTimerSalt = uint32(s.Draw(1<<31-1)) + 1
